@@ -188,6 +188,19 @@ func (t TV) Go() any {
 		return p
 	case "Emb":
 		return Emb{Item: t.item(), Extra: t.S}
+	case "*bool":
+		v := t.B
+		return &v
+	case "*int":
+		v := int(t.I)
+		return &v
+	case "*string":
+		v := t.S
+		return &v
+	case "**int":
+		v := int(t.I)
+		pv := &v
+		return &pv
 	case "time":
 		return time.Unix(t.I, 0).UTC()
 	case "chan":
